@@ -128,7 +128,11 @@ int main(int argc, char** argv)
 		}
 		double tol = g.logu(1e-12, 1e-3);
 		intent("Find_Minimum fam " + std::to_string(fam) + " c=" + hexbits(c) + " s=" + hexbits(s) + " f0=" + hexbits(f0) + " xa=" + hexbits(xa) + " xb=" + hexbits(xb) + " tol=" + hexbits(tol));
-		double xm	 = Find_Minimum(f, xa, xb, tol);
+		// every evaluation is observed: the point returned must be the best one evaluated (Brent keeps the best point in x)
+		double fbest = INFINITY;
+		long nev	 = 0;
+		double xm = Find_Minimum([&](double x) { double v = f(x); nev++; fbest = std::min(fbest, v); return v; }, xa, xb, tol);
+		bool bestok = f(xm) <= fbest;
 		double xM	 = Find_Maximum([&](double x) { return -f(x); }, xa, xb, tol);
 		bool notworse = f(xm) <= std::min(f(xa), f(xb));
 		int64_t dq = -1;
@@ -142,7 +146,7 @@ int main(int argc, char** argv)
 			// Brent's tolerance is tol*|x| + eps (absolute); the bracket closes to four times that
 			dq = quant(xm - c, 8.0 * tol * std::max(std::fabs(c), std::fabs(xm)) + 16.0 * EPS + 8.0 * flat + 8 * EPS * s + 1e-300);
 		}
-		T.emit({{"e", "Min1D"}, {"fam", fam}, {"cls", cls}, {"notworse", notworse}, {"fin", std::isfinite(xm)}, {"maxeq", bits(xM) == bits(xm)}, {"dq", dq},
+		T.emit({{"e", "Min1D"}, {"fam", fam}, {"cls", cls}, {"notworse", notworse}, {"fin", std::isfinite(xm)}, {"maxeq", bits(xM) == bits(xm)}, {"dq", dq}, {"bestok", bestok}, {"nev", nev},
 				{"par", {hexbits(c), hexbits(s), hexbits(f0), hexbits(xa), hexbits(xb), hexbits(tol), hexbits(xm)}}});
 	}
 	// ---------------------------------------------------------------- N-D
